@@ -1,17 +1,21 @@
 #!/bin/sh
-# tools/try_seed.sh <property> <patch.diff> [tier]: apply a seeded change to /repo, run the check, undo.
+# tools/try_seed.sh <property> <patch.diff> [tier]: apply a seeded change to the repository, run the check, undo.
+# REPO_ROOT / VERIF_ROOT select a scratch copy made by tools/mkscratch.sh (default: /repo and /verif).
 set -u
 P="$1"; PATCH="$2"; TIER="${3:-quick}"
-cd /repo || exit 2
+R="${REPO_ROOT:-/repo}"; V="${VERIF_ROOT:-/verif}"
+cd "$R" || exit 2
 if [ -n "$(git status --porcelain)" ]; then echo "repo not clean"; exit 2; fi
 git apply "$PATCH" || { echo "patch does not apply"; exit 2; }
-cd /verif
+cd "$V"
 # the evidence file describes the unchanged tree: keep it aside while the patched tree is checked
-cp "evidence/$P.json" "/verif/.cache/evidence-$P.keep" 2>/dev/null
-./check "$P" --tier "$TIER" > /tmp/try_seed.out 2>/tmp/try_seed.err; RC=$?
-git -C /repo checkout -- . ; git -C /repo clean -fdq
-cp "evidence/$P.json" "seeded/.last-evidence-$P.json" 2>/dev/null; mv "/verif/.cache/evidence-$P.keep" "evidence/$P.json" 2>/dev/null
-(cd lean && python3 ../tools/extract.py >/dev/null 2>&1)
-grep -E "^VIOLATION|^KNOWN" /tmp/try_seed.out | cut -c1-200
-tail -3 /tmp/try_seed.err | cut -c1-400
+mkdir -p "$V/.cache"
+cp "evidence/$P.json" "$V/.cache/evidence-$P.keep" 2>/dev/null
+OUT="$V/.cache/try_seed.$P.out"; ERR="$V/.cache/try_seed.$P.err"
+./check "$P" --tier "$TIER" > "$OUT" 2> "$ERR"; RC=$?
+git -C "$R" checkout -- . ; git -C "$R" clean -fdq
+cp "evidence/$P.json" "seeded/.last-evidence-$P.json" 2>/dev/null; mv "$V/.cache/evidence-$P.keep" "evidence/$P.json" 2>/dev/null
+(python3 tools/extract.py --repo "$R" >/dev/null 2>&1)
+grep -E "^VIOLATION|^KNOWN" "$OUT" | cut -c1-200
+tail -3 "$ERR" | cut -c1-400
 echo "rc=$RC"
